@@ -74,15 +74,18 @@ def clause_eviction(prog, rep):
                         if s in oks:
                             continue
                         reg = f.reachable_from(s)
-                        for c in f.live_calls():
-                            if c.bb in reg and saveg.call(c):
-                                # the handler (an mdk-core function on that side, or this one) assigns GroupState::Inactive to a
-                                # `.state` field before the save — merely mentioning the constant somewhere below does not count
-                                cands = [f] + [prog.fns[q] for t in prog.call_targets(c) for q in sorted(prog.extent(t))
-                                               if q in prog.fns and prog.fns[q].crate == "mdk_core" and not prog.fns[q].is_test_like()]
-                                for g in cands:
-                                    if ("GroupState", "Inactive") in P.field_const_writes(prog, g, "state"):
-                                        ok_inactive = True
+                        # what runs on that side and saves the group: called functions, and closures built there (`.map(|mut g| ..)`)
+                        savers = [t for c in f.live_calls() if c.bb in reg and saveg.call(c) for t in prog.call_targets(c)]
+                        savers += [prog.fns[st["closure"]] for b2, st in f.stmts() if b2 in reg and st.get("k") == "closure"
+                                   and st.get("closure") in prog.fns and saveg.fn(st["closure"])]
+                        if any(c.bb in reg and saveg.call(c) for c in f.live_calls()) or savers:
+                            # the handler (an mdk-core function on that side, or this one) assigns GroupState::Inactive to a
+                            # `.state` field before the save — merely mentioning the constant somewhere below does not count
+                            cands = [f] + [prog.fns[q] for t in savers for q in sorted(prog.extent(t))
+                                           if q in prog.fns and prog.fns[q].crate == "mdk_core" and not prog.fns[q].is_test_like()]
+                            for g in cands:
+                                if ("GroupState", "Inactive") in P.field_const_writes(prog, g, "state"):
+                                    ok_inactive = True
             rep.check(ok_inactive, "no-export-after-eviction", inst + "/inactive",
                       "the evicted side stores the group as Inactive",
                       "no path on the own_leaf()==None side stores the group as Inactive", m.loc())
